@@ -168,6 +168,10 @@ fn templates_src() -> Vec<(&'static str, Vec<Clause>)> {
             rule("down", vec![n.clone(), mk_list(vec![n.clone()], Some(t.clone()))],
                  G::And(vec![G::Cmp(Cmp::Gt, n.clone(), T::Int(0)), G::Unify(m.clone(), func("subtract", vec![n.clone(), T::Int(1)])), call("down", vec![m.clone(), t.clone()])])),
         ]),
+        // print formats held in a variable (only offered to programs that print)
+        ("fmt", vec![
+            fact("fmt", vec![atom("%s is big; ")]), fact("fmt", vec![atom("<%s>")]), fact("fmt", vec![atom("plain ")]), fact("fmt", vec![atom("%s")]),
+        ]),
         ("rev", vec![
             fact("rev", vec![list(vec![]), l.clone(), l.clone()]),
             rule("rev", vec![mk_list(vec![h.clone()], Some(t.clone())), l.clone(), r_.clone()],
@@ -180,7 +184,8 @@ impl<'r> ProgGen<'r> {
     pub fn new(r: &'r mut Rng, f: Feat) -> ProgGen<'r> { ProgGen { r, f, arities: vec![], templates: vec![] } }
 
     fn constant(&mut self) -> T {
-        match self.r.below(6) { 0..=2 => atom(CONSTS[self.r.below(3)]), 3 | 4 => T::Int(self.r.below(4) as i64), _ => T::Float(1.5) }
+        // 1 / 1.0 and 2 / 2.0 print alike but are different values
+        match self.r.below(9) { 0..=3 => atom(CONSTS[self.r.below(3)]), 4 | 5 => T::Int(self.r.below(4) as i64), 6 => T::Float(1.5), 7 => T::Float(1.0), _ => T::Float(2.0) }
     }
     fn cvar(&mut self) -> T { var(CVARS[self.r.below(CVARS.len())]) }
     fn ground_list(&mut self) -> T { let n = self.r.range(0, 3); list((0..n).map(|_| self.constant()).collect()) }
@@ -215,6 +220,7 @@ impl<'r> ProgGen<'r> {
                      else { call("app", vec![self.ground_list(), self.ground_list(), self.cvar()]) },
             "len" => call("len", vec![self.ground_list(), self.cvar()]),
             "down" => call("down", vec![T::Int(self.r.below(4) as i64), self.cvar()]),
+            "fmt" => { let f = self.cvar(); G::And(vec![call("fmt", vec![f.clone()]), G::Print(vec![f, self.constant()])]) }
             _ => call("rev", vec![self.ground_list(), list(vec![]), self.cvar()]),
         })
     }
@@ -280,7 +286,10 @@ impl<'r> ProgGen<'r> {
         let all = templates_src();
         self.templates = vec![];
         let mut clauses: Vec<Clause> = vec![];
-        for (name, cl) in &all { if self.r.chance(1, 3) { self.templates.push(name); clauses.extend(cl.iter().cloned()); } }
+        for (name, cl) in &all {
+            if *name == "fmt" && !self.f.print { continue; }
+            if self.r.chance(1, 3) { self.templates.push(name); clauses.extend(cl.iter().cloned()); }
+        }
         for i in 0..npred {
             let nc = self.r.range(1, 3);
             for _ in 0..nc {
